@@ -92,6 +92,19 @@ func c18Key(c *core.Ctx, n *big.Int, e int, tag string) {
 	}
 }
 
+// idStable: the key id handed out is the caller's to keep or overwrite; asking again must give the same id.
+func idStable(get func() []byte, want []byte) bool {
+	a := get()
+	if !bytes.Equal(a, want) {
+		return false
+	}
+	for i := range a {
+		a[i] ^= 0xff
+	}
+	b := get()
+	return bytes.Equal(b, want)
+}
+
 func runC18(c *core.Ctx) {
 	rk := RSAKeys()
 	// ---- DER: fixtures
@@ -104,7 +117,7 @@ func runC18(c *core.Ctx) {
 		}
 	}
 	// ---- DER: synthetic moduli
-	exps := []int{3, 17, 65537, 1<<31 - 1}
+	exps := []int{3, 17, 65537, 1<<31 - 1, 1 << 31, 1<<32 + 1, 1<<62 + 1}
 	var lens []int
 	for l := 1; l <= 300; l++ {
 		lens = append(lens, l)
@@ -134,7 +147,7 @@ func runC18(c *core.Ctx) {
 				}
 			}
 			b[l-1] |= 1
-			e := exps[(rep/2)%len(exps)]
+			e := exps[(l+rep/2)%len(exps)]
 			eclass := fmt.Sprint(e)
 			if rep%7 == 6 {
 				e = (r.IntN(1<<30) << 1) | 1
@@ -213,8 +226,8 @@ func runC18(c *core.Ctx) {
 				d := map[string]any{"suite": suite.Identifier(), "key_id": core.Hex(id)}
 				if suite == oprf.SuiteP384 {
 					iss := type1.NewBasicPrivateIssuer(FreshVOPRFKey(suite, key))
-					if !bytes.Equal(iss.TokenKeyID(), id) {
-						c.Violation("keyid:type1", "type-1 TokenKeyID is not SHA-256 of the serialized public key", d)
+					if !idStable(iss.TokenKeyID, id) {
+						c.Violation("keyid:type1", "type-1 TokenKeyID is not (or does not stay) SHA-256 of the serialized public key", d)
 						return
 					}
 					c.Class("key_id_type1")
@@ -226,8 +239,8 @@ func runC18(c *core.Ctx) {
 					c.Class("truncated_key_id_last_byte")
 				} else {
 					iss := type5.NewBatchedPrivateIssuer(FreshVOPRFKey(suite, key))
-					if !bytes.Equal(iss.TokenKeyID(), id) {
-						c.Violation("keyid:type5", "type-5 TokenKeyID is not SHA-256 of the serialized public key", d)
+					if !idStable(iss.TokenKeyID, id) {
+						c.Violation("keyid:type5", "type-5 TokenKeyID is not (or does not stay) SHA-256 of the serialized public key", d)
 						return
 					}
 					c.Class("key_id_type5")
@@ -245,7 +258,7 @@ func runC18(c *core.Ctx) {
 			id := idA[:]
 			d := map[string]any{"fixture": i % len(rk), "key_id": core.Hex(id)}
 			iss2 := type2.NewBasicPublicIssuer(key)
-			if !bytes.Equal(iss2.TokenKeyID(), id) {
+			if !idStable(iss2.TokenKeyID, id) {
 				c.Violation("keyid:type2", "type-2 TokenKeyID is not SHA-256 of the RSASSA-PSS SPKI", d)
 				return
 			}
@@ -259,7 +272,7 @@ func runC18(c *core.Ctx) {
 				c.Class("truncated_key_id_last_byte")
 			}
 			iss3 := type3.NewRateLimitedIssuer(key)
-			if !bytes.Equal(iss3.TokenKeyID(), id) {
+			if !idStable(iss3.TokenKeyID, id) {
 				c.Violation("keyid:type3", "type-3 TokenKeyID is not SHA-256 of the RSASSA-PSS SPKI", d)
 				return
 			}
